@@ -35,6 +35,9 @@ void probe () {
   s += " a=" + implode (map (a, (: "" + $1 :)), ",") + " e=" + e;
   s += " co=" + this_object ()->twice (21);
   u = "/vreg"->get ("u1");
+  // every function of the user object that ran a failing command also ran its own tail (a recovery point inside it gave
+  // control back to IT, with its own pc)
+  s += " bal=" + (u ? u->balanced () : 1);
   s += " side in=" + (u ? in_input (u) : -1);
   // the heart beat of the object under test (error_handler switches it off when an error reaches the driver)
   o = find_object ("/c05/gen/t");
